@@ -702,6 +702,9 @@ func (r *runner) finalChecks() {
 			r.addV(v)
 		}
 	}
+	if r.has("import-reference") {
+		r.addV(checkImportReference(r)...)
+	}
 	if r.has("pit-reads") {
 		r.addV(checkPITReads(r)...)
 	}
